@@ -223,6 +223,29 @@ def make_evse(station_id, spec):
     raise ValueError(spec)
 
 
+def spec_accepts(spec, pilot, atol=1e-3):
+    """the acceptance set of an EVSE template, from its SPEC (independent of the library's own predicate)"""
+    kind = spec[0]
+    if kind == "cont":
+        return spec[1] - atol <= pilot <= spec[2] + atol
+    if kind == "dead":
+        return abs(pilot) <= atol or spec[1] - atol <= pilot <= spec[2] + atol
+    return any(abs(pilot - r) <= atol for r in [0] + list(spec[1]))
+
+
+def spec_max_rate(spec):
+    return float(spec[2]) if spec[0] in ("cont", "dead") else float(max([0] + list(spec[1])))
+
+
+def spec_min_rate(spec):
+    if spec[0] == "cont":
+        return float(spec[1])
+    if spec[0] == "dead":
+        return float(spec[1])
+    pos = [r for r in spec[1] if r > 0]
+    return float(min(pos)) if pos else 0.0
+
+
 class MonNet(ChargingNetwork):
     """ChargingNetwork whose (library-provided) per-period extension point records state."""
 
